@@ -88,4 +88,40 @@ theorem set_deep_pos (cfg : DCfg) (hp : Diff.Plain cfg) (al : Align) (hashOf : P
   · have := itemLenL_pos _ h (fun x hx => hbx x (List.mem_filter.1 hx).1)
     omega
 
+theorem frozenset_diffUnmerged (cfg : DCfg) (hp : Diff.Plain cfg) (al : Align) (hashOf : PyVal → String) (xs ys : List PyVal) :
+    diffUnmerged cfg al hashOf (.frozenset xs) (.frozenset ys) = ⟨diffSet hashOf [] xs ys, []⟩ := by
+  unfold diffUnmerged
+  simp only [skipSteps_plain hp, Bool.false_eq_true, if_false, diffV, keepReported_plain hp]
+
+/-- **frozensets of scalars**: numerator, denominator, and the gap of 2 between them -/
+theorem frozenset_deep_distance (cfg : DCfg) (hp : Diff.Plain cfg) (al : Align) (hashOf : PyVal → String)
+    (xs ys : List PyVal) (hbx : ∀ x ∈ xs, isBasic x = true) (hby : ∀ y ∈ ys, isBasic y = true) :
+    (deepDistance cfg al hashOf (.frozenset xs) (.frozenset ys)).1 = itemLenL (setRemovedL hashOf xs ys) + itemLenL (setAddedL hashOf xs ys) ∧
+    (deepDistance cfg al hashOf (.frozenset xs) (.frozenset ys)).2 = xs.length + ys.length + 2 ∧
+    (deepDistance cfg al hashOf (.frozenset xs) (.frozenset ys)).1 + 2 ≤ (deepDistance cfg al hashOf (.frozenset xs) (.frozenset ys)).2 := by
+  obtain ⟨hA, hR, hV, hT, hDA, hDR, hIA, hIR, _⟩ := set_payload hashOf true false (.frozenset xs) (.frozenset ys) xs ys
+  have hM := set_no_moved hashOf true false (.frozenset xs) (.frozenset ys) xs ys
+  have hnum : (deepDistance cfg al hashOf (.frozenset xs) (.frozenset ys)).1 = itemLenL (setRemovedL hashOf xs ys) + itemLenL (setAddedL hashOf xs ys) := by
+    unfold deepDistance
+    rw [frozenset_diffUnmerged cfg hp al hashOf xs ys]
+    unfold payloadLen
+    rw [hA, hR, hV, hT, hDA, hDR, hIA, hIR, hM]
+    simp only [sumBy, Nat.zero_add, Nat.add_zero]
+    split <;> split <;> simp_all [sumBy, itemLenL]
+  have hden : (deepDistance cfg al hashOf (.frozenset xs) (.frozenset ys)).2 = xs.length + ys.length + 2 := by
+    unfold deepDistance
+    simp only [roughLen, roughLenL_basic _ xs hbx, roughLenL_basic _ ys hby]
+    omega
+  refine ⟨hnum, hden, ?_⟩
+  rw [hnum, hden]
+  have h1 : itemLenL (setRemovedL hashOf xs ys) ≤ xs.length := by
+    have := itemLenL_le_length (setRemovedL hashOf xs ys) (fun x hx => hbx x (List.mem_filter.1 hx).1)
+    have := List.length_filter_le (fun x => !(ys.map hashOf).contains (hashOf x)) xs
+    unfold setRemovedL at *; omega
+  have h2 : itemLenL (setAddedL hashOf xs ys) ≤ ys.length := by
+    have := itemLenL_le_length (setAddedL hashOf xs ys) (fun y hy => hby y (List.mem_filter.1 hy).1)
+    have := List.length_filter_le (fun y => !(xs.map hashOf).contains (hashOf y)) ys
+    unfold setAddedL at *; omega
+  omega
+
 end Dist
